@@ -56,6 +56,16 @@ class World:
             for k, v in m.class_aliases(c).items():
                 if v in self.meths:
                     self.meths[k] = self.meths[v]
+        # class-level tables (dicts / tuples of constants): evaluated by the interpreter from the class bodies
+        for c in reversed(chain):
+            for st in m.cls(c).body:
+                if isinstance(st, (ast.Assign, ast.AnnAssign)) and st.value is not None and not isinstance(st.value, ast.Constant):
+                    t = st.targets[0] if isinstance(st, ast.Assign) else st.target
+                    if isinstance(t, ast.Name) and t.id not in self.fields:
+                        try:
+                            self.fields[t.id] = minieval.ev(st.value, dict(self.fields), {"$globals": minieval.module_consts(m)})
+                        except Exception:       # noqa: BLE001 - not a table of constants: reading it is Unsupported
+                            pass
         self.props = {k for k, f in self.meths.items() if any(core.dotted(d) == "property" for d in f.decorator_list)}
         self.ctor = ctor or (lambda *a, **k: Rebuilt(_args=a, _kws=k))
         slot = lambda name: Stub(__get__=lambda o, *a: getattr(self._native_of(o), name))        # noqa: E731
